@@ -114,6 +114,10 @@ int32_t tls13ImportPublicValue(ssl_t *ssl,
             }
             ssl->sec.x25519KeyPub = psMalloc(ssl->sec.eccDhKeyPool,
                     PS_DH_X25519_PUBLIC_KEY_BYTES);
+            if (ssl->sec.x25519KeyPub == NULL)
+            {
+                goto out_internal_error;
+            }
             Memcpy(ssl->sec.x25519KeyPub,
                     keyExchangeData,
                     PS_DH_X25519_PUBLIC_KEY_BYTES);
